@@ -34,7 +34,7 @@ def make_gen(weights, cfg_fn=None, nmin=8, nmax=40, shape=None, fault_fn=None):
 
     def gen_case(rng, tier):
         cfg = {"universe": rng.choice(sorted(OS.CASCADES)), "autoflush": rng.random() < 0.7, "expire_on_commit": rng.random() < 0.7,
-               "fk_on": True, "readd": rng.random() < 0.4, "sp_outer": rng.random() < 0.5}
+               "fk_on": True, "readd": rng.random() < 0.4, "sp_outer": rng.random() < 0.5, "expunge_midtxn": rng.random() < 0.5}
         if cfg_fn:
             cfg_fn(rng, cfg)
         # swarm: drop a random subset of op kinds for this history
@@ -80,6 +80,8 @@ def txn_blocks(rng, pool, cfg=None):
                                      "node_parent", "follow", "g_ops", "q_ops", "mut_data", "mut_items", "expire", "refresh", "lazy", "get")] or ["set"]
     if focus_k:
         work = work + ["k_rename"] * (len(work) // 2 + 1)
+        if "expunge" in pool:
+            work = work + ["expunge"] * (len(work) // 6 + 1)       # (mid-transaction expunge of a key-switched object, cfg expunge_midtxn)
     for _ in range(rng.randint(1, 4)):
         depth = 0
         for _ in range(rng.randint(0, 2)):
